@@ -137,6 +137,7 @@ type c09Env struct {
 	Scramble bool // plain packer only: anti-DPI scrambling on
 	Parts    int  // the ClientHello is written in this many pieces
 	Coalesce bool // retransmission phase: Handshake and 1-RTT keys exist, with data to send at both levels
+	Second   bool // instead of the retransmission phase: a second ClientHello (as after a HelloRetryRequest) is written behind the first
 }
 
 // c09ParseInitial reads one Initial packet produced with the pass-through sealer and returns
@@ -227,16 +228,19 @@ type c09FlightResult struct {
 	Sizes    []int
 	// retransmission phase (only after a complete, error-free flight): the frames of a seeded subset of
 	// the flight's datagrams are declared lost, then the packer is asked for packets again
-	LostDgrams   []int
-	RetxPayloads [][]byte
-	Coalesced    int // retransmission datagrams in which other packets follow the Initial packet
-	OtherDgrams  int
-	RetxErr      error
-	Err          error
-	ParseErr     string
-	Panic        string
-	Stack        string
-	Calls        int
+	LostDgrams     []int
+	RetxPayloads   [][]byte
+	SecondPayloads [][]byte // the datagrams that carried the second ClientHello
+	SecondErr      error
+	SecondDone     bool
+	Coalesced      int // retransmission datagrams in which other packets follow the Initial packet
+	OtherDgrams    int
+	RetxErr        error
+	Err            error
+	ParseErr       string
+	Panic          string
+	Stack          string
+	Calls          int
 }
 
 // c09Pack writes ch to a fresh Initial stream and packs Initial packets until the packer
@@ -303,10 +307,40 @@ func c09Pack(spec *QUICSpec, ch []byte, env c09Env, rng *rand.Rand) (res c09Flig
 				return
 			}
 			if p == nil {
-				// ---- the flight is complete: lose some of its datagrams and let the packer retransmit
+				// ---- the flight is complete
 				if len(sentFrames) == 0 {
 					return
 				}
+				if env.Second {
+					// a HelloRetryRequest arrived: the TLS stack writes a second ClientHello, which continues
+					// the Initial CRYPTO stream where the first one ended
+					if _, err := initial.Write(ch); err != nil {
+						res.SecondErr = fmt.Errorf("initialCryptoStream.Write: %w", err)
+						return
+					}
+					for k := 0; k < len(ch)+64; k++ {
+						sp, err := pk.PackCoalescedPacket(false, protocol.ByteCount(env.MaxSize), now, protocol.Version1)
+						if err != nil {
+							res.SecondErr = err
+							return
+						}
+						if sp == nil {
+							res.SecondDone = true
+							return
+						}
+						pl, _, perr := c09ParseInitial(sp.buffer.Data)
+						if perr != "" {
+							sp.buffer.Release()
+							res.SecondErr = fmt.Errorf("packet unreadable: %s", perr)
+							return
+						}
+						res.SecondPayloads = append(res.SecondPayloads, append([]byte(nil), pl...))
+						sp.buffer.Release()
+					}
+					res.SecondErr = fmt.Errorf("packer still produces Initial packets after %d calls", len(ch)+64)
+					return
+				}
+				// lose some of its datagrams and let the packer retransmit
 				for i := range sentFrames {
 					if rng.IntN(2) == 0 {
 						res.LostDgrams = append(res.LostDgrams, i)
@@ -452,6 +486,28 @@ func c09JudgeFlight(c *evlog.Case, rp *c09Rep, comp, inClass string, env c09Env,
 		rp.viol("C09|"+comp+"|"+cls+inClass, detail, full())
 		return "viol", st
 	}
+	// ---- second ClientHello: its bytes at absolute offsets len(ch)..2*len(ch), completely
+	if env.Second && (res.SecondDone || res.SecondErr != nil) {
+		tr := func() map[string]any {
+			t := full()
+			t["second_flight_payloads"] = c09HexAll(res.SecondPayloads)
+			return t
+		}
+		c.Count("second_clienthello_phases", 1)
+		if res.SecondErr != nil {
+			kind := "|other-error"
+			if strings.Contains(res.SecondErr.Error(), "does not fit the packet buffer") {
+				kind = "|packet-buffer-overflow"
+			}
+			rp.viol("C09|"+comp+"|second-clienthello-error"+kind+inClass, fmt.Sprintf("after a complete %d-datagram flight a second ClientHello of %d bytes was written to the Initial stream; the packer failed with: %v", len(res.Payloads), len(ch), res.SecondErr), tr())
+			return "viol", st
+		}
+		if cls, detail, _ := c09Check(ch, uint64(len(ch)), res.SecondPayloads, true); cls != "" {
+			rp.viol("C09|"+comp+"|second-clienthello|"+cls+inClass, fmt.Sprintf("second ClientHello (stream offsets %d..%d): %s", len(ch), 2*len(ch), detail), tr())
+			return "viol", st
+		}
+		c.Count("second_clienthello_datagrams", int64(len(res.SecondPayloads)))
+	}
 	// ---- retransmissions: CRYPTO frames still carry the ClientHello's bytes at their true offsets, and
 	// every lost byte is sent again
 	if len(res.LostDgrams) > 0 {
@@ -530,6 +586,7 @@ func c09GenEnv(r *rand.Rand) c09Env {
 		e.PNLens = []protocol.PacketNumberLen{protocol.PacketNumberLen(1 + r.IntN(4)), protocol.PacketNumberLen(1 + r.IntN(4)), protocol.PacketNumberLen(1 + r.IntN(4))}
 	}
 	e.Coalesce = r.IntN(3) == 0
+	e.Second = !e.Coalesce && r.IntN(3) == 0
 	return e
 }
 
